@@ -424,21 +424,24 @@ func (w *printer) stmt(st Stmt) {
 	case *Switch:
 		s := w.begin(x.ID)
 		w.toks("switch", "(")
-		os := w.begin(0)
 		if x.Auto != nil {
+			os := len(w.out)
 			w.cmd(x.Auto)
+			w.first[-x.ID] = os // negative id: operand range
+			w.last[-x.ID] = len(w.out) - 1
 		} else {
 			w.toks("var", "(")
+			os := len(w.out)
 			for i, t := range x.Operand {
 				idx := w.tok(t)
 				if i == 0 {
 					w.mark(x.ID, "operand", idx)
 				}
 			}
+			w.first[-x.ID] = os // negative id: the operand tokens alone
+			w.last[-x.ID] = len(w.out) - 1
 			w.tok(")")
 		}
-		w.first[-x.ID] = os // negative id: operand range
-		w.last[-x.ID] = len(w.out) - 1
 		w.toks(")", "{")
 		w.nl()
 		for _, c := range x.Cases {
@@ -447,12 +450,15 @@ func (w *printer) stmt(st Stmt) {
 				w.toks("default", ":")
 			} else {
 				w.tok("case")
+				vs := len(w.out)
 				for i, t := range c.Value {
 					idx := w.tok(t)
 					if i == 0 {
 						w.mark(c.ID, "value", idx)
 					}
 				}
+				w.first[-c.ID] = vs
+				w.last[-c.ID] = len(w.out) - 1
 				w.tok(":")
 			}
 			w.nl()
@@ -533,12 +539,16 @@ func (w *printer) cond(c Cond, ctx int) {
 			w.cmd(x.Auto)
 		} else {
 			w.toks(x.Kind, "(")
+			os := len(w.out)
 			for i, t := range x.Operand {
 				idx := w.tok(t)
 				if i == 0 {
 					w.mark(x.ID, "operand", idx)
 				}
 			}
+			// the operand tokens alone, under the negative id
+			w.first[-x.ID] = os
+			w.last[-x.ID] = len(w.out) - 1
 			w.tok(")")
 		}
 		if x.Op != "" {
